@@ -41,6 +41,7 @@ impl<S: EnumSpec> Subject for Enum<S> {
         ctx.stats(&name).bound = self.0.space(ctx.tier);
         let tier = ctx.tier;
         let mut idx: u64 = 0;
+        let mut mine_count: u64 = 0;
         let mut capped = false;
         let nshards = ctx.args.nshards as u64;
         let shard = ctx.args.shard as u64;
@@ -52,7 +53,8 @@ impl<S: EnumSpec> Subject for Enum<S> {
             if !mine {
                 return true;
             }
-            if idx % 64 == 0 && ctx.out_of_time() {
+            mine_count += 1;
+            if mine_count % 64 == 0 && ctx.out_of_time() {
                 capped = true;
                 return false;
             }
